@@ -15,6 +15,22 @@ def run(ctx):
     vc = {"cash": ctx.corr("CashValidator", "every recorded decision of the real cash validator vs model `cashVeto` on the same order, cost and cash")}
     tstream.stream(ctx, ctx.n(60, 3000), corrs, [monitors.c09_monitor], extra_sync=lambda c, tr, ix: sync_misc.validators_sync(c, vc, tr, ix),
                    cfg_opts=lambda k: ({"trade_handler_acts": True} if k % 2 else {"p_init_pos": 0.5}))      # even runs: configured starting holdings (margin / cash from the first day)
+    # a futures account that STARTS with positions, as the first run of a fresh process: the margin of the configured holdings must count against the
+    # available cash from the first order on (the class-level margin shortcut of a process that has not seen a futures position yet)
+    import random, bundle as B, trading
+    rnd = random.Random(ctx.rnd.random())
+    for _ in range(ctx.n(2, 30)):
+        seed = rnd.randrange(1, 10 ** 6)
+        r2 = random.Random(seed)
+        S = B.gen_market(r2, ndays=r2.randrange(6, 12), with_future=True, n_stocks=0, opts={"p_expire": 0.0, "n_futures": 1})
+        cfgk = trading.gen_config(r2, S, {"no_signal": True})
+        f0 = S["futures"][0]
+        first = f0["bars"].get(S["warm"]) or next(iter(f0["bars"].values()))
+        # a small account: the margin of the starting lots is most of it, so that an opening order larger than what is really available gets sent
+        lots = r2.choice([3, 5, -4])
+        cfgk["accounts"] = {"future": round(abs(lots) * first[2] * f0["mult"] * f0["info"]["margin_rate"] * (cfgk.get("base_extra") or {}).get("margin_multiplier", 1) * r2.uniform(1.3, 2.0), 2)}
+        cfgk["base_extra"] = dict(cfgk.get("base_extra") or {}, init_positions="%s:%d" % (f0["id"], lots))
+        tstream.fresh_process_run(ctx, S, cfgk, seed, ["c09_monitor"], "futures account starting from configured positions %s" % cfgk["base_extra"]["init_positions"])
     # minute frequency (current_bar / next_bar matching): reserve monitor only
     minute_stream.stream(ctx, ctx.n(3, 100), [monitors.c09_monitor])
 
